@@ -40,6 +40,15 @@ fn disarm() {
     }
 }
 
+/// the request for the set model and the answer expected from it; on the in-process transport the batching of select is free
+fn set_pair(case: &mut Case, ops: &[String], per: &[String], idl: &[String]) {
+    if cfg!(feature = "force-inprocess") {
+        case.pair(format!("set batching=free | {}", ops.join(" | ")), format!("{} ids={}", per.join(" "), idl.join(",")));
+    } else {
+        case.pair(format!("set | {}", ops.join(" | ")), format!("{} ids={} blocked=0", per.join(" "), idl.join(",")));
+    }
+}
+
 fn msg(tag: u64, big: bool, max: usize) -> Vec<u8> {
     let len = if big { max * 2 + 17 } else { 8 };
     let mut v = vec![0u8; len];
@@ -217,7 +226,7 @@ pub fn seq_case(rng: &mut Rng, id: String, max: usize, nmembers: usize) -> Case 
     }
     let per: Vec<String> = (0..txs.len()).map(|i| format!("m{}={}", i, if seen[i].is_empty() { "-".into() } else { seen[i].join(",") })).collect();
     let idl: Vec<String> = ids.iter().enumerate().filter_map(|(i, x)| x.map(|v| format!("{}:{}", i, v))).collect();
-    case.pair(format!("set | {}", ops.join(" | ")), format!("{} ids={} blocked=0", per.join(" "), idl.join(",")));
+    set_pair(&mut case, &ops, &per, &idl);
     case.nontrivial = ops.iter().filter(|o| *o == "select").count() > 1;
     case.key = ops.join("|");
     case.tags.push(format!("members={}", txs.len() / 4 * 4));
@@ -326,7 +335,7 @@ pub fn many_ready_case(rng: &mut Rng, id: String, max: usize, k: usize) -> Case 
     }
     let per: Vec<String> = (0..k).map(|i| format!("m{}={}", i, if seen[i].is_empty() { "-".into() } else { seen[i].join(",") })).collect();
     let idl: Vec<String> = ids.iter().enumerate().map(|(i, v)| format!("{}:{}", i, v)).collect();
-    case.pair(format!("set | {}", ops.join(" | ")), format!("{} ids={} blocked=0", per.join(" "), idl.join(",")));
+    set_pair(&mut case, &ops, &per, &idl);
     case.nontrivial = true;
     case.key = format!("many:{}:{}", k, ops.len());
     case.tags.push(format!("members={}", k / 4 * 4));
@@ -429,7 +438,7 @@ pub fn big_batch_case(rng: &mut Rng, id: String, max: usize, big_len: usize) -> 
     drop(atx);
     let per: Vec<String> = (0..k).map(|i| format!("m{}={}", i, if seen[i].is_empty() { "-".into() } else { seen[i].join(",") })).collect();
     let idl: Vec<String> = ids.iter().enumerate().map(|(i, v)| format!("{}:{}", i, v)).collect();
-    case.pair(format!("set | {}", ops.join(" | ")), format!("{} ids={} blocked=0", per.join(" "), idl.join(",")));
+    set_pair(&mut case, &ops, &per, &idl);
     case.nontrivial = true;
     case.key = format!("bigbatch:{}:{}:{}", big_len, nb1, nb2);
     case.tags.push(format!("batch_bytes={}", big_len));
@@ -439,8 +448,13 @@ pub fn big_batch_case(rng: &mut Rng, id: String, max: usize, big_len: usize) -> 
 pub fn run(args: &[String]) {
     let sys_arg = arg_u64(args, "--sys", 4608) as usize;
     ip::SPOOF_SNDBUF.store(sys_arg, Ordering::SeqCst);
-    let _ = crate::frag::effective_sys();
-    let max = OsIpcSender::get_max_fragment_size();
+    #[cfg(not(feature = "force-inprocess"))]
+    let max = {
+        let _ = crate::frag::effective_sys();
+        OsIpcSender::get_max_fragment_size()
+    };
+    #[cfg(feature = "force-inprocess")]
+    let max = 4568usize;
     let thorough = arg(args, "--tier").as_deref() == Some("thorough");
     let seed = arg_u64(args, "--seed", 1);
     let n = arg_u64(args, "--n", if thorough { 3000 } else { 200 });
